@@ -233,6 +233,8 @@ pub fn sites(_tier: Tier) -> Vec<Site> {
                 }
             }));
     }
+    // text fields are filled from the text given, not from what an earlier, failed write left behind
+    sites.push(super::c03::after_writer_failure_site("C11"));
     sites
 }
 
